@@ -37,10 +37,10 @@ C["C10"] = dict(harnesses=[
 C["C13"] = dict(harnesses=[
     comp("c13", "VerifC13Subst", ["compiled"],
          "vars value of 1..N characters over aAn1 _-. (not spelling null) used alone, inside unquoted and double-quoted text, in a connection label, from an inner vars scope shadowing an outer one, and through a nested variable path: same projection as the program with the value written in place",
-         {"N": 2}, {"N": 3}),
+         {"N": 2}, {"N": 4}),
     comp("c13", "VerifC13Single", ["compiled"],
          "same values: single-quoted ${x} is kept literally; ${y} / ${X} resolve only when defined",
-         {"N": 2}, {"N": 3})],
+         {"N": 2}, {"N": 4})],
     stubs=[FMT], outside=["values with other characters, composite variables, spread substitutions", "d2-config variables"])
 C["C14"] = dict(harnesses=[
     comp("c14", "VerifC14Inline", ["compiled"],
@@ -64,7 +64,7 @@ C["C36"] = dict(harnesses=[
         {"BASES": 3, "NV": 1}, {"NV": 2}),
     orc("VerifC36Imports", ["updated"],
         "programs of 1..K statements from a menu of 10 (spread imports at file level and inside a container, imports as values at two depths and inside an array, of the path being changed, of another path and below a directory; plain statements); UpdateImport removes the path, renames it (moved, lib/moved, ../up) or renames a directory (dir/ -> lib/): the result parses, is a formatter fixpoint, holds exactly the imports a reference computes (old ones gone or renamed, others kept) and compiles against a file system where the old file is gone and the new one exists",
-        {"K": 2}, {"K": 3})],
+        {"K": 2}, {"K": 4})],
     stubs=[FMT], outside=["edits addressed to nested boards (C41)", "histories longer than HIST", "imports as primary values next to a map and inside substitutions"])
 C["C37"] = dict(harnesses=[
     orc("VerifC37CreateSet", ["created", "set", "refused"],
